@@ -1,6 +1,7 @@
 package main
 
 import (
+	"sync"
 	"fmt"
 	"strings"
 	"go/token"
@@ -101,10 +102,20 @@ func (fr *Frame) enterLoop(li *loopInfo, head *ssa.BasicBlock) {
 			ec.goal = true
 			g, err := ec.tryBool(inv.E)
 			if err != nil {
+				if inv.Optional {
+					dropInvariant(fr.fn, li.ord, inv.Line)
+					ex.optionalDropped = true
+					ex.note("optional invariant of loop %d does not apply to this code (%s): dropped", li.ord, err.Error())
+					return
+				}
 				ex.failOb("contract-typechecks", fmt.Sprintf("loop%d-inv%d", li.ord, i+1), err.Error()+" in "+inv.Src, head.Instrs[0].Pos())
 				return
 			}
+			if inv.Optional {
+				ex.optionalOb = fmt.Sprintf("%s|loop%d|%s", canonName(fr.fn), li.ord, inv.Line)
+			}
 			ex.oblige("inv-entry", fmt.Sprintf("loop%d#%d", li.ord, i+1), g, fr.curReach, "loop invariant holds on entry: "+inv.Src, loopPos(li), inv.Prop)
+			ex.optionalOb = ""
 		})
 	}
 	// 3. havoc
@@ -221,12 +232,34 @@ func (fr *Frame) loopInvs(li *loopInfo) []Clause {
 		return nil
 	}
 	var out []Clause
-	for _, c := range li.spec.Invs {
+	for i, c := range li.spec.Invs {
+		if c.Optional && droppedInvariants[optKey(fr.fn, li.ord, i)] {
+			continue // optional invariant found not to hold in an earlier round
+		}
 		if clauseApplies(c, fr.ex.Prop) {
-			out = append(out, c)
+			c2 := c
+			c2.Line = fmt.Sprintf("%d", i) // index within the loop spec (names the optional clause)
+			out = append(out, c2)
 		}
 	}
 	return out
+}
+
+// droppedInvariants: optional loop invariants ("invariant?") that did not type-check or were not inductive in an earlier
+// round of this run; they are left out when the function is verified again (Houdini-style).
+var (
+	droppedInvariants   = map[string]bool{}
+	droppedInvariantsMu sync.Mutex
+)
+
+func optKey(fn *ssa.Function, loopOrd, idx int) string {
+	return fmt.Sprintf("%s|loop%d|%d", canonName(fn), loopOrd, idx)
+}
+
+func dropInvariant(fn *ssa.Function, loopOrd int, idxStr string) {
+	droppedInvariantsMu.Lock()
+	defer droppedInvariantsMu.Unlock()
+	droppedInvariants[fmt.Sprintf("%s|loop%d|%s", canonName(fn), loopOrd, idxStr)] = true
 }
 
 func (fr *Frame) checkBackEdge(li *loopInfo, from *ssa.BasicBlock) {
@@ -254,10 +287,19 @@ func (fr *Frame) checkBackEdge(li *loopInfo, from *ssa.BasicBlock) {
 			ec.goal = true
 			g, err := ec.tryBool(inv.E)
 			if err != nil {
+				if inv.Optional {
+					dropInvariant(fr.fn, li.ord, inv.Line)
+					ex.optionalDropped = true
+					return
+				}
 				ex.failOb("contract-typechecks", fmt.Sprintf("loop%d-inv%d-back", li.ord, i+1), err.Error()+" in "+inv.Src, head.Instrs[0].Pos())
 				return
 			}
+			if inv.Optional {
+				ex.optionalOb = fmt.Sprintf("%s|loop%d|%s", canonName(fr.fn), li.ord, inv.Line)
+			}
 			ex.oblige("inv-preserved", fmt.Sprintf("loop%d#%d", li.ord, i+1), g, c, "loop invariant preserved: "+inv.Src, loopPos(li), inv.Prop)
+			ex.optionalOb = ""
 		})
 	}
 }
